@@ -233,6 +233,9 @@ func vfC14(w *vfWorld) {
 	}
 	cfg.PKCE = vfPick(t, "c14.pkce", []string{"", "S256"})
 	audClaim := vfPick(t, "c14.audclaim", []string{"", "azp", "client_ids"})
+	if az {
+		audClaim = ""
+	}
 	if audClaim != "" && cfg.Provider != "plain" {
 		cfg.Extra = append(cfg.Extra, "--oidc-audience-claim="+audClaim)
 	}
@@ -559,8 +562,24 @@ func vfC14(w *vfWorld) {
 					mustReject = !transient && (n == "no-access-token" || (strings.HasPrefix(n, "omit:") && strings.Contains(n, "access_token")))
 				}
 				if az && kd.Mint != nil {
-					// this provider, too, takes the tokens from its back channel unverified (no verifier is configured) and falls
-					// back from an unreadable ID token to the access token: nothing about a token answer's content is promised
+					// this provider accepts a token answer when either the ID token or the access token verifies and reads the claims
+					// from whichever of the two can be decoded (documented work-around for unsigned AAD ID tokens): nothing about the
+					// ID token's content alone is promised
+					mustReject = false
+				}
+				if az && cls == "userinfo" {
+					// this flavour asks the profile endpoint once per claim it misses; only trouble that covers every one of
+					// these calls (it starts at the first and persists) is certain to hit the one the e-mail address comes from
+					first := -1
+					for i, c := range calls {
+						if first < 0 && endpointClass(c.Endpoint) == "userinfo" {
+							first = i
+						}
+					}
+					mustReject = mustReject && k == first && lacks["email"]
+				}
+				if az && cls == "jwks" {
+					// ... and the access token's key may still be cached when the ID token's cannot be fetched
 					mustReject = false
 				}
 				if flow == "google-login" && kd.Mint != nil {
